@@ -42,3 +42,21 @@ func g2special(c *fw.Ctx) {
 		}
 	}
 }
+
+// Family G2:function-identity: two function literals are two function values, also when constant folding makes their
+// instructions identical; the script can tell (==, !=) and may use the identity (call-back registries).
+var identityBodies = []string{"1 + 1", "2", "4 / 2", `"a" + "b"`, `"ab"`, "-(-2)", "!false", "true", "[1 + 1][0]", "2.0", `len("ab")`, "x + (1 + 1)", "x + 2"}
+
+func g2identity(c *fw.Ctx) {
+	c.Family("G2:function-identity", fmt.Sprintf("all ordered pairs of %d function bodies (several fold to the same instructions) x identity observed by ==, != and through calls", len(identityBodies)))
+	for _, b1 := range identityBodies {
+		for _, b2 := range identityBodies {
+			if !c.Next() {
+				continue
+			}
+			src := "global (L); f := func(x) { return " + b1 + " }; g := func(x) { return " + b2 + " }; h := func(x) { return " + b1 + " }; " +
+				"reg := [f]; seen := false; for r in reg { if r == g { seen = true } }; return [f == g, f != g, f == h, g == h, f == f, seen, f(1), g(1), h(1)]"
+			check(c, prog{src: src, constSub: []string{b1, b2}}, limits)
+		}
+	}
+}
